@@ -852,7 +852,11 @@ class ArgumentParser(ParserDeprecations, ActionsContainer, ArgumentLinking, argp
                 default = subdefaults[key]
                 class_object_val = None
                 class_changed = False
+                same_dict_kwargs = True
                 if is_subclass_spec(val):
+                    if not isinstance(default, dict):
+                        default = {}  # no default spec (None): the class is "another class than the default's"
+                    same_dict_kwargs = val.get("dict_kwargs") == default.get("dict_kwargs")
                     if val["class_path"] != default.get("class_path"):
                         class_changed = True
                         with parser_context(parent_parser=self):
@@ -862,8 +866,8 @@ class ArgumentParser(ParserDeprecations, ActionsContainer, ArgumentLinking, argp
                     val = val.get("init_args")
                     default = default.get("init_args")
                 subprefix = prefix + key + (".init_args." if class_object_val else ".")
-                if val == default and class_changed:
-                    class_object_val.pop("init_args", None)  # another class than the default's: keep its class_path
+                if val == default and (class_changed or not same_dict_kwargs):
+                    class_object_val.pop("init_args", None)  # another class or other dict_kwargs than the default's: keep the rest
                 elif val == default:
                     del subcfg[key]
                 elif isinstance(val, dict) and isinstance(default, dict) and prefix + key not in dict_values:
